@@ -17,7 +17,24 @@ import redress.budget as budget_mod  # noqa: E402
 import redress.circuit as circuit_mod  # noqa: E402
 from redress import Budget, CircuitBreaker, ErrorClass  # noqa: E402
 
-FILES = {"breaker": circuit_mod.__file__, "budget": budget_mod.__file__}
+import redress.policy.state as state_mod  # noqa: E402
+from redress import Retry  # noqa: E402
+
+FILES = {"breaker": circuit_mod.__file__, "budget": budget_mod.__file__, "policy_budget": state_mod.__file__}
+
+
+class Failing(Exception):
+    pass
+
+
+class PolicyWorld:
+    """several Retry components sharing one Budget; every operation fails (TRANSIENT); sleeps are no-ops"""
+
+    def __init__(self, cfg):
+        self.budget = Budget(max_retries=cfg["max"], window_s=cfg["win"] * vclock.TICK)
+        self.retries = [Retry(classifier=lambda e: ErrorClass.TRANSIENT, strategy=lambda ctx: 0.0, max_attempts=cfg.get("max_attempts", 2),
+                              deadline_s=1000.0, budget=self.budget) for _ in range(cfg.get("policies", 2))]
+        self._lock = None     # the Budget keeps its real lock: it is never held across a scheduling point (budget.py is not traced)
 
 
 class Deadlock(Exception):
@@ -99,6 +116,10 @@ class CoopLock:
 
 def mk_object(sc):
     CLOCK.ticks = 0
+    if sc["kind"] == "policy_budget":
+        obj = PolicyWorld(sc["cfg"])
+        CLOCK.ticks = sc["clock"]
+        return obj
     if sc["kind"] == "breaker":
         c = sc["cfg"]
         obj = CircuitBreaker(failure_threshold=c["thr"], window_s=c["win"] * vclock.TICK, recovery_timeout_s=c["rto"] * vclock.TICK,
@@ -115,6 +136,13 @@ def mk_object(sc):
 
 def do_op(obj, op):
     k = op[0]
+    if k == "execute":
+        def failing():
+            raise Failing()
+        retries = []
+        out = obj.retries[op[1]].execute(failing, sleeper=lambda s: None,
+                                         on_metric=lambda ev, a, sl, tags: retries.append(ev) if ev == "retry" else None)
+        return ["X", out.stop_reason.name if out.stop_reason else None, out.attempts, len(retries)]
     if k == "allow":
         d = obj.allow()
         return ["D", bool(d.allowed), d.state.name, d.event]
@@ -135,6 +163,8 @@ def do_op(obj, op):
 
 
 def summary(obj, kind):
+    if kind == "policy_budget":
+        return [len(obj.budget._events)]
     if kind == "breaker":
         return [obj._state.name, bool(obj._probe_in_flight), len(obj._failures)]
     return [len(obj._events)]
